@@ -103,10 +103,21 @@ func c02FuncTargets(v ssa.Value, depth int) []c02Target {
 					addAll(c02FuncTargets(a.Val, depth+1))
 				}
 			}
+		case *ssa.Parameter:
+			// a function received as an argument: what the call sites pass
+			if c02P != nil && u.Parent() != nil && inModule(u.Parent()) {
+				for _, a := range c02ParamArgs(c02P, u) {
+					addAll(c02FuncTargets(a, depth+2))
+				}
+			}
 		}
 	}
 	return out
 }
+
+// c02P: the program under analysis (set by runC02), for resolutions that need
+// the call sites of a function.
+var c02P *Prog
 
 // c02CalleeOf resolves the in-module function a call executes (static call,
 // immediately applied closure, local closure variable, method value).
@@ -571,20 +582,7 @@ func c02ElemWait(c *Ctx, sc *c02Scope, elem map[ssa.Value]bool, pushes []ssa.Cal
 				}
 				c.OK(R1, tn+"|wait-loop-channel", call.Pos(), "the successor is handed to "+FnName(g)+", which is checked as the wait for it")
 				c02ElemWait(c, &c02Scope{fn: g, startB: g.Blocks[0]}, Aliases(prm), c02Pushes(g, nil), depth+1)
-				// only the nil result of the helper continues
-				var nilE []Edge
-				if e := ErrOf(call); e != nil {
-					nilE, _, _ = NilTests(T, c02MustAliases(e))
-				}
-				ct := newCut().Edges(nilE...)
-				ok := len(nilE) > 0 && !sc.next(sc.startB, 0, ct)
-				if ErrResultIndex(g.Signature) < 0 {
-					// a helper without an error result: it must be executed on every path
-					ok = !sc.next(sc.startB, 0, newCut().Instr(call.(ssa.Instruction)))
-				}
-				c.Check(R1, tn+"|wait-on-every-iteration", call.Pos(), ok,
-					ifelse(ok, "every path to "+sc.what()+" takes the nil edge of the wait helper's error",
-						"a path reaches "+sc.what()+" without a successful return of the wait helper "+FnName(g)))
+				c02HelperGates(c, sc, call, g)
 				return
 			}
 		}
@@ -596,11 +594,66 @@ func c02ElemWait(c *Ctx, sc *c02Scope, elem map[ssa.Value]bool, pushes []ssa.Cal
 	tc := tcs[0]
 	ch := ResultOf(tc, 0)
 	committed := ResultOf(tc, 1)
+	errIdx := ErrResultIndex(T.Signature)
+	// committed==true: nobody owns the node -> must return an error
+	if committed == nil {
+		c.Violation(R1, tn+"|unowned-successor-is-error", tc.Pos(), "the `committed` result of TryCommit(successor) is discarded")
+	} else {
+		te, _ := BoolTests(T, Aliases(committed))
+		if len(te) == 0 {
+			c.Violation(R1, tn+"|unowned-successor-is-error", tc.Pos(), "the `committed` result of TryCommit(successor) is not tested: if nobody claimed the successor the parent would wait forever or proceed")
+		}
+		for _, e := range te {
+			bad := sc.next(e.To, 0, nil)
+			for _, p := range pushes {
+				if reach(e.To, 0, p.(ssa.Instruction), nil) {
+					bad = true
+				}
+			}
+			if errIdx < 0 {
+				bad = true
+			} else if a := findNilReturnFrom(T, e, errIdx, newCut(), map[ssa.Value]bool{}); a != nil {
+				bad = true
+			}
+			c.Check(R1, tn+"|unowned-successor-is-error", tc.Pos(), !bad,
+				ifelse(!bad, "a successor nobody claimed makes the parent return an error", "when TryCommit(successor) commits (nobody copied it) the parent continues instead of failing"))
+		}
+	}
 	if ch == nil {
 		c.Violation(R1, tn+"|wait-loop-select", tc.Pos(), "the done channel returned by TryCommit is discarded")
 		return
 	}
-	chAliases := Aliases(ch)
+	c02ChanWait(c, sc, Aliases(ch), pushes, depth)
+}
+
+// c02HelperGates: in scope sc, only the nil result of the helper call (or, for
+// a helper without error result, its execution) leads to the success
+// continuation.
+func c02HelperGates(c *Ctx, sc *c02Scope, call ssa.CallInstruction, g *ssa.Function) {
+	const R1 = "C02.R1.wait-before-push"
+	T := sc.fn
+	var nilE []Edge
+	if e := ErrOf(call); e != nil {
+		nilE, _, _ = NilTests(T, c02MustAliases(e))
+	}
+	ok := len(nilE) > 0 && !sc.next(sc.startB, 0, newCut().Edges(nilE...))
+	if ErrResultIndex(g.Signature) < 0 {
+		// a helper without an error result: it must be executed on every path
+		ok = !sc.next(sc.startB, 0, newCut().Instr(call.(ssa.Instruction)))
+	}
+	c.Check(R1, FnName(T)+"|wait-on-every-iteration", call.Pos(), ok,
+		ifelse(ok, "every path to "+sc.what()+" takes the nil edge of the wait helper's error",
+			"a path reaches "+sc.what()+" without a successful return of the wait helper "+FnName(g)))
+}
+
+// c02ChanWait checks that scope sc waits on the tracker channel denoted by
+// chAliases: a select receiving from it whose only alternative is ctx.Done()
+// returning an error, on every path to the success continuation — inline, or
+// in a helper that receives the channel.
+func c02ChanWait(c *Ctx, sc *c02Scope, chAliases map[ssa.Value]bool, pushes []ssa.CallInstruction, depth int) {
+	const R1 = "C02.R1.wait-before-push"
+	T := sc.fn
+	tn := FnName(T)
 	var sel *ssa.Select
 	var recvUnOp ssa.Instruction
 	AllInstrs(T, func(in ssa.Instruction) {
@@ -611,6 +664,31 @@ func c02ElemWait(c *Ctx, sc *c02Scope, elem map[ssa.Value]bool, pushes []ssa.Cal
 			recvUnOp = u
 		}
 	})
+	if sel == nil && recvUnOp == nil && depth < 3 {
+		// the channel handed to a helper that waits on it
+		for _, call := range Calls(T, func(string) bool { return true }) {
+			if _, isDefer := call.(*ssa.Defer); isDefer || !sc.contains(call.(ssa.Instruction)) {
+				continue
+			}
+			g, off := c02CalleeOf(call)
+			if g == nil || g == T {
+				continue
+			}
+			for i, a := range call.Common().Args {
+				prm := c02ArgParam(g, off, i)
+				if prm == nil || !c02RootedIn(a, chAliases) {
+					continue
+				}
+				if _, isChan := prm.Type().Underlying().(*types.Chan); !isChan {
+					continue
+				}
+				c.OK(R1, tn+"|wait-loop-select", call.Pos(), "the done channel is handed to "+FnName(g)+", which is checked as the wait on it")
+				c02ChanWait(c, &c02Scope{fn: g, startB: g.Blocks[0]}, Aliases(prm), c02Pushes(g, nil), depth+1)
+				c02HelperGates(c, sc, call, g)
+				return
+			}
+		}
+	}
 	if sel == nil {
 		if recvUnOp != nil { // plain receive <-done is a wait without cancellation
 			c.OK(R1, tn+"|wait-loop-select", recvUnOp.Pos(), "plain receive on the done channel")
@@ -668,30 +746,6 @@ func c02ElemWait(c *Ctx, sc *c02Scope, elem map[ssa.Value]bool, pushes []ssa.Cal
 			c.Check("C02.R4.cancellable-wait", tn+"|ctx-done-returns-error", sel.Pos(), !bad,
 				ifelse(!bad, "the ctx.Done() case returns ctx.Err() and reaches no push", "the ctx.Done() case can reach a push effect or return nil"))
 		}
-	}
-	// committed==true: nobody owns the node -> must return an error
-	if committed == nil {
-		c.Violation(R1, tn+"|unowned-successor-is-error", tc.Pos(), "the `committed` result of TryCommit(successor) is discarded")
-		return
-	}
-	te, _ := BoolTests(T, Aliases(committed))
-	if len(te) == 0 {
-		c.Violation(R1, tn+"|unowned-successor-is-error", tc.Pos(), "the `committed` result of TryCommit(successor) is not tested: if nobody claimed the successor the parent would wait forever or proceed")
-	}
-	for _, e := range te {
-		bad := sc.next(e.To, 0, nil)
-		for _, p := range pushes {
-			if reach(e.To, 0, p.(ssa.Instruction), nil) {
-				bad = true
-			}
-		}
-		if errIdx < 0 {
-			bad = true
-		} else if a := findNilReturnFrom(T, e, errIdx, newCut(), map[ssa.Value]bool{}); a != nil {
-			bad = true
-		}
-		c.Check(R1, tn+"|unowned-successor-is-error", tc.Pos(), !bad,
-			ifelse(!bad, "a successor nobody claimed makes the parent return an error", "when TryCommit(successor) commits (nobody copied it) the parent continues instead of failing"))
 	}
 }
 
@@ -1009,7 +1063,7 @@ func c02MapsError(g *ssa.Function, p *ssa.Parameter, tolerated []string) (bool, 
 		}
 		return true, ""
 	}
-	ct := newCut().Edges(toleratedEdges(g, aliases, tolerated)...)
+	ct := newCut().Edges(c02ToleratedEdges(g, aliases, tolerated)...)
 	for _, ne := range nonNilE {
 		if bad := findNilReturnFrom(g, ne, errIdx, ct, aliases); bad != nil {
 			return false, fmt.Sprintf("%s returns %s for a non-nil, non-tolerated argument (return at %s)", FnName(g), describe(bad.Val), posLine(g, bad.Ret.Pos()))
@@ -1139,7 +1193,7 @@ func c02ErrFlowCore(c ssa.CallInstruction, o ErrFlowOpts) ErrFlowResult {
 	if len(ifs) == 0 {
 		return ErrFlow(c, o)
 	}
-	tolE := toleratedEdges(fn, aliases, o.Tolerated)
+	tolE := c02ToleratedEdges(fn, aliases, o.Tolerated)
 	cutTol := newCut().Edges(tolE...)
 	cutTol.Instr(c.(ssa.Instruction))
 	for i, ne := range nonNilE {
@@ -1289,75 +1343,93 @@ func c02AssignedToOuterResult(fn *ssa.Function, aliases map[ssa.Value]bool) bool
 	return false
 }
 
-// c02CallSites: the calls of g in the functions of its package.
+// c02CallSites: the calls of g in the functions of its package (static calls,
+// immediately applied or locally bound closures, method values; cached — the
+// resolution must not itself go through call sites).
 func c02CallSites(p *Prog, g *ssa.Function) []ssa.CallInstruction {
-	var out []ssa.CallInstruction
 	path := strings.TrimPrefix(strings.TrimPrefix(fnPkgPath(g), Mod), "/")
-	for _, f := range p.FuncsOfPkg(path) {
-		for _, call := range Calls(f, func(string) bool { return true }) {
-			if h, _ := c02CalleeOf(call); h == g {
-				out = append(out, call)
+	if c02CallSiteProg != p {
+		c02CallSiteCache = map[string]map[*ssa.Function][]ssa.CallInstruction{}
+		c02CallSiteProg = p
+	}
+	idx, ok := c02CallSiteCache[path]
+	if !ok {
+		idx = map[*ssa.Function][]ssa.CallInstruction{}
+		for _, f := range p.FuncsOfPkg(path) {
+			for _, call := range Calls(f, func(string) bool { return true }) {
+				cc := call.Common()
+				if cc.IsInvoke() {
+					continue
+				}
+				h := StaticCallee(call)
+				if h == nil {
+					for _, r := range Roots(cc.Value) {
+						if mc, ok := r.(*ssa.MakeClosure); ok {
+							h = mc.Fn.(*ssa.Function)
+						}
+					}
+				}
+				if h == nil {
+					continue
+				}
+				h, _ = c02Unwrap(h)
+				idx[h] = append(idx[h], call)
 			}
 		}
+		c02CallSiteCache[path] = idx
 	}
-	return out
+	return idx[g]
 }
+
+var (
+	c02CallSiteCache = map[string]map[*ssa.Function][]ssa.CallInstruction{}
+	c02CallSiteProg  *Prog
+)
 
 // c02ErrIdentities: the callback fields (struct field a function value was
 // loaded from) whose error the call may return unchanged — the callback
 // itself, or an in-module helper that invokes it and returns its result.
 // argOf maps parameters of the function containing `call` to the argument
 // values of the call under analysis (context), nil = all call sites.
-func c02ErrIdentities(p *Prog, call ssa.CallInstruction, argOf map[*ssa.Parameter]ssa.Value, depth int) map[string]bool {
+func c02ErrIdentities(p *Prog, call ssa.CallInstruction, argOf map[*ssa.Parameter]ssa.Value, depth int, inHelper ...bool) map[string]bool {
 	out := map[string]bool{}
-	if depth > 3 {
+	if depth > 4 {
 		return out
 	}
 	cc := call.Common()
 	if cc.IsInvoke() {
+		// a store / registry operation: identified by its interface method — when it
+		// is the call itself or what a function value (closure, method value) passed
+		// around performs.  An operation a named helper performs on its own is the
+		// helper's business: the helper has to handle the tolerated sentinel itself.
+		if len(inHelper) > 0 && inHelper[0] {
+			out["?"] = true
+		} else {
+			out[CalleeName(call)] = true
+		}
 		return out
 	}
 	if g, off := c02CalleeOf(call); g != nil && StaticCallee(call) != nil {
-		errIdx := ErrResultIndex(g.Signature)
-		if errIdx < 0 {
-			return out
-		}
 		binding := map[*ssa.Parameter]ssa.Value{}
 		for i, a := range cc.Args {
 			if prm := c02ArgParam(g, off, i); prm != nil {
 				binding[prm] = a
 			}
 		}
-		for _, a := range RetAtoms(g, errIdx) {
-			var u ssa.CallInstruction
-			switch x := strip(a.Val).(type) {
-			case *ssa.Call:
-				u = x
-			case *ssa.Extract:
-				if cl, ok := x.Tuple.(*ssa.Call); ok {
-					u = cl
-				}
-			}
-			if u == nil {
-				continue
-			}
-			for k := range c02ErrIdentities(p, u, binding, depth+1) {
-				out[k] = true
-			}
-		}
-		// identities seen from inside g are expressed in g's caller: resolve
-		// them if they are still parameters of the enclosing function
+		return c02FnErrIdentities(p, g, binding, depth+1, true)
+	}
+	if StaticCallee(call) != nil {
+		return out
+	}
+	if _, isBuiltin := cc.Value.(*ssa.Builtin); isBuiltin {
 		return out
 	}
 	for _, r := range Roots(cc.Value) {
-		if fs := c02OriginFields(p, r, 0); len(fs) > 0 {
-			for _, f := range fs {
-				out["field:"+f] = true
-			}
-			continue
-		}
 		prm, ok := r.(*ssa.Parameter)
 		if !ok {
+			for k := range c02ValueIdentities(p, r, depth) {
+				out[k] = true
+			}
 			continue
 		}
 		var vals []ssa.Value
@@ -1365,31 +1437,97 @@ func c02ErrIdentities(p *Prog, call ssa.CallInstruction, argOf map[*ssa.Paramete
 			if v, ok := argOf[prm]; ok {
 				vals = append(vals, v)
 			}
-		} else {
-			idx := -1
-			for i, q := range prm.Parent().Params {
-				if q == prm {
-					idx = i
-				}
+		}
+		if len(vals) == 0 {
+			vals = c02ParamArgs(p, prm)
+		}
+		if len(vals) == 0 {
+			out["?"] = true
+		}
+		for _, v := range vals {
+			for k := range c02ValueIdentities(p, v, depth) {
+				out[k] = true
 			}
-			for _, site := range c02CallSites(p, prm.Parent()) {
-				_, off := c02CalleeOf(site)
-				if a := site.Common().Args; idx-off >= 0 && idx-off < len(a) {
-					vals = append(vals, a[idx-off])
+		}
+	}
+	return out
+}
+
+// c02ParamArgs: the argument values parameter prm receives at the call sites
+// of its function (in its package).
+func c02ParamArgs(p *Prog, prm *ssa.Parameter) []ssa.Value {
+	idx := -1
+	for i, q := range prm.Parent().Params {
+		if q == prm {
+			idx = i
+		}
+	}
+	var vals []ssa.Value
+	for _, site := range c02CallSites(p, prm.Parent()) {
+		off := 0
+		if StaticCallee(site) == nil {
+			for _, r := range Roots(site.Common().Value) {
+				if mc, ok := r.(*ssa.MakeClosure); ok {
+					_, off = c02Unwrap(mc.Fn.(*ssa.Function))
 				}
 			}
 		}
-		for _, v := range vals {
-			named := false
-			for _, rr := range Roots(v) {
-				for _, f := range c02OriginFields(p, rr, 0) {
-					out["field:"+f] = true
-					named = true
-				}
+		if a := site.Common().Args; idx-off >= 0 && idx-off < len(a) {
+			vals = append(vals, a[idx-off])
+		}
+	}
+	return vals
+}
+
+// c02ValueIdentities: the identities of the errors a function value returns:
+// the callback field it was loaded from, or — for a closure / method value —
+// the operations whose error it returns unchanged ("?" when unknown).
+func c02ValueIdentities(p *Prog, v ssa.Value, depth int) map[string]bool {
+	out := map[string]bool{}
+	named := false
+	for _, rr := range Roots(v) {
+		for _, f := range c02OriginFields(p, rr, 0) {
+			out["field:"+f] = true
+			named = true
+		}
+	}
+	for _, t := range c02FuncTargets(v, 0) {
+		if len(t.Fn.Blocks) == 0 {
+			continue
+		}
+		named = true
+		for k := range c02FnErrIdentities(p, t.Fn, nil, depth+1) {
+			out[k] = true
+		}
+	}
+	if !named {
+		out["?"] = true
+	}
+	return out
+}
+
+// c02FnErrIdentities: the identities of the call results g returns as its error.
+func c02FnErrIdentities(p *Prog, g *ssa.Function, binding map[*ssa.Parameter]ssa.Value, depth int, inHelper ...bool) map[string]bool {
+	out := map[string]bool{}
+	errIdx := ErrResultIndex(g.Signature)
+	if errIdx < 0 || depth > 4 {
+		return out
+	}
+	for _, a := range RetAtoms(g, errIdx) {
+		var u ssa.CallInstruction
+		switch x := strip(a.Val).(type) {
+		case *ssa.Call:
+			u = x
+		case *ssa.Extract:
+			if cl, ok := x.Tuple.(*ssa.Call); ok {
+				u = cl
 			}
-			if !named {
-				out["?"] = true
-			}
+		}
+		if u == nil {
+			continue
+		}
+		for k := range c02ErrIdentities(p, u, binding, depth+1, inHelper...) {
+			out[k] = true
 		}
 	}
 	return out
@@ -2192,7 +2330,8 @@ func c02MustPassPS(fn *ssa.Function, target ssa.Instruction, ct *cut, okErrs map
 }
 
 // c02SentinelNames names the sentinel error(s) v denotes (as sentinelName
-// does), also through a captured variable.
+// does), also through a captured variable and through a parameter (what the
+// call sites pass).
 func c02SentinelNames(v ssa.Value, depth int) []string {
 	if depth > 3 {
 		return nil
@@ -2202,10 +2341,17 @@ func c02SentinelNames(v ssa.Value, depth int) []string {
 	}
 	var out []string
 	for _, r := range Roots(v) {
-		if u, ok := r.(*ssa.UnOp); ok && u.Op == token.MUL {
-			if fv, ok := u.X.(*ssa.FreeVar); ok {
+		switch u := r.(type) {
+		case *ssa.UnOp:
+			if fv, ok := u.X.(*ssa.FreeVar); ok && u.Op == token.MUL {
 				for _, val := range c02CellValues(fv, 0) {
 					out = append(out, c02SentinelNames(val, depth+1)...)
+				}
+			}
+		case *ssa.Parameter:
+			if c02P != nil && u.Parent() != nil && inModule(u.Parent()) {
+				for _, a := range c02ParamArgs(c02P, u) {
+					out = append(out, c02SentinelNames(a, depth+1)...)
 				}
 			}
 		}
@@ -2213,33 +2359,125 @@ func c02SentinelNames(v ssa.Value, depth int) []string {
 	return out
 }
 
-// c02CallbackSentinels: the sentinel errors that a function-typed argument of
-// the call (a closure created in the caller) can return.
+// c02ToleratedEdges is toleratedEdges (errflow.go) with c02SentinelNames: the
+// edges on which the error is known to be a tolerated sentinel.
+func c02ToleratedEdges(fn *ssa.Function, aliases map[ssa.Value]bool, tolerated []string) []Edge {
+	out := toleratedEdges(fn, aliases, tolerated)
+	if len(tolerated) == 0 {
+		return out
+	}
+	tol := map[string]bool{}
+	for _, t := range tolerated {
+		tol[t] = true
+	}
+	isTol := func(v ssa.Value) bool {
+		ns := c02SentinelNames(v, 0)
+		for _, n := range ns {
+			if !tol[n] {
+				return false
+			}
+		}
+		return len(ns) > 0
+	}
+	have := map[Edge]bool{}
+	for _, e := range out {
+		have[e] = true
+	}
+	for _, i := range Ifs(fn) {
+		cond, t, f := ifEdges(i)
+		var e Edge
+		switch c := cond.(type) {
+		case *ssa.Call:
+			if CalleeName(c) != "errors.Is" || len(c.Call.Args) != 2 || !aliases[c.Call.Args[0]] || !isTol(c.Call.Args[1]) {
+				continue
+			}
+			e = t
+		case *ssa.BinOp:
+			if c.Op != token.EQL && c.Op != token.NEQ {
+				continue
+			}
+			var other ssa.Value
+			if aliases[c.X] {
+				other = c.Y
+			} else if aliases[c.Y] {
+				other = c.X
+			} else {
+				continue
+			}
+			if !isTol(other) {
+				continue
+			}
+			e = t
+			if c.Op == token.NEQ {
+				e = f
+			}
+		default:
+			continue
+		}
+		if !have[e] {
+			have[e] = true
+			out = append(out, e)
+		}
+	}
+	return out
+}
+
+// c02CallbackSentinels: the skip sentinels that a function-typed argument of
+// the call (a closure created in the caller, possibly delegating to further
+// function values) can return: local errors.New values and unexported
+// package-level variables of the root package.
 func c02CallbackSentinels(call ssa.CallInstruction) []string {
 	var out []string
 	seen := map[string]bool{}
+	visited := map[*ssa.Function]bool{}
+	var rec func(fn *ssa.Function, depth int)
+	rec = func(fn *ssa.Function, depth int) {
+		idx := ErrResultIndex(fn.Signature)
+		if idx < 0 || len(fn.Blocks) == 0 || visited[fn] || depth > 3 {
+			return
+		}
+		visited[fn] = true
+		for _, at := range RetAtoms(fn, idx) {
+			var cl *ssa.Call
+			switch x := strip(at.Val).(type) {
+			case *ssa.Call:
+				cl = x
+			case *ssa.Extract:
+				cl, _ = x.Tuple.(*ssa.Call)
+			}
+			if cl != nil && CalleeName(cl) != "errors.New" {
+				if cl.Call.IsInvoke() {
+					continue
+				}
+				if g := StaticCallee(cl); g != nil {
+					if inModule(g) {
+						rec(g, depth+1)
+					}
+					continue
+				}
+				for _, t := range c02FuncTargets(cl.Call.Value, 0) {
+					rec(t.Fn, depth+1)
+				}
+				continue
+			}
+			for _, n := range c02SentinelNames(at.Val, 0) {
+				local := strings.HasPrefix(n, "local:")
+				if rest := strings.TrimPrefix(n, "~."); rest != n && rest != "" && !strings.Contains(rest, ".") && rest[0] >= 'a' && rest[0] <= 'z' {
+					local = true
+				}
+				if local && !seen[n] {
+					seen[n] = true
+					out = append(out, n)
+				}
+			}
+		}
+	}
 	for _, a := range call.Common().Args {
 		if _, ok := a.Type().Underlying().(*types.Signature); !ok {
 			continue
 		}
 		for _, t := range c02FuncTargets(a, 0) {
-			idx := ErrResultIndex(t.Fn.Signature)
-			if idx < 0 || len(t.Fn.Blocks) == 0 {
-				continue
-			}
-			for _, at := range RetAtoms(t.Fn, idx) {
-				if _, isCall := at.Val.(*ssa.Call); isCall {
-					if CalleeName(at.Val.(*ssa.Call)) != "errors.New" {
-						continue
-					}
-				}
-				for _, n := range c02SentinelNames(at.Val, 0) {
-					if !seen[n] {
-						seen[n] = true
-						out = append(out, n)
-					}
-				}
-			}
+			rec(t.Fn, 0)
 		}
 	}
 	return out
@@ -2488,4 +2726,26 @@ func c02WrapsSentinel(v ssa.Value, loads map[ssa.Value]bool, depth int) bool {
 		}
 	}
 	return false
+}
+
+// c02FindCalls: the calls of `name` in f or in the in-module functions f
+// statically calls (depth 2), with the chain of calls leading there
+// (innermost first).
+func c02FindCalls(f *ssa.Function, name string, chain []ssa.CallInstruction, depth int) []c02TaskCall {
+	var out []c02TaskCall
+	for _, call := range Calls(f, func(string) bool { return true }) {
+		if _, isDefer := call.(*ssa.Defer); isDefer {
+			continue
+		}
+		if CalleeName(call) == name {
+			out = append(out, c02TaskCall{call, chain})
+			continue
+		}
+		if depth < 2 {
+			if g, _ := c02CalleeOf(call); g != nil && g != f {
+				out = append(out, c02FindCalls(g, name, append([]ssa.CallInstruction{call}, chain...), depth+1)...)
+			}
+		}
+	}
+	return out
 }
